@@ -17,7 +17,8 @@ PROP = dict(
                                      "--builds", str(BUILDS[tier])],
     rule="a seed-dependent sample of resources/testdata (UFO, designspace, Glyphs 2/3) plus generated sources (8-40 "
          "glyphs, composites, anchors, kerning groups and many pairs, non-export glyphs, FEA with feature names, 1-2 axes, "
-         "3 masters, instances repeating name strings, a rule); each source is compiled 6 (thorough: 12) times in "
+         "3-4 masters, in every second single-axis design the glyphs mixing a contour and a component exist only at the "
+         "outer masters so that they are batch-interpolated at two missing locations, instances repeating name strings, a rule); each source is compiled 6 (thorough: 12) times in "
          "separate processes - fresh hash seeds - with RAYON_NUM_THREADS in {1,2,3,8,16} and SOURCE_DATE_EPOCH fixed; "
          "all outputs must be byte-identical; the name records of each font are handed to the model's sort in two other orders "
          "and must come out as the font has them. Non-trivial = the source compiles; distinct = distinct source.",
@@ -29,7 +30,8 @@ PROP = dict(
     assumptions=["batch_interpolation_ignores_hash_order: `interp` is a section variable standing for instantiate_instance (any "
                  "function of the original source set and the location); the batch model itself is not evaluated against "
                  "the code - that batch_interpolate_missing has this shape is read from fontir/src/glyph.rs, and its effect "
-                 "is exercised only by the differential builds of sparse-master sources",
+                 "is exercised only by the differential builds of sparse-master sources (generated designs with two intermediate "
+                 "masters that lack the mixed contour+component glyphs)",
                  "schedule_independence treats a job as atomic and as a function of the items it reads; that no conflicting "
                  "job overlaps its execution is what C02's sched_safe establishes",
                  "hash seeds and thread timing are runtime behaviour the model cannot exhibit: they are exercised by the "
